@@ -8,6 +8,7 @@ import Driver.PubSub
 import Driver.ReqRep
 import Driver.PubClient
 import Driver.ReqClient
+import Driver.Registry
 
 /-! `drv`: one case per input line, one result per output line (see /verif/DESIGN.md, section 3.2). -/
 
@@ -31,13 +32,20 @@ def step (line : String) : String :=
     else "bad-op"
   | [] => "bad-op"
 
-partial def loop (h : IO.FS.Stream) (out : IO.FS.Stream) : IO Unit := do
+partial def loop (h : IO.FS.Stream) (out : IO.FS.Stream) (reg : Driver.Registry.St) : IO Unit := do
   let line ← h.getLine
   if line.isEmpty then return ()
-  out.putStrLn (step line)
-  loop h out
+  match Driver.words line with
+  | "reg" :: rest =>
+    -- registration cases share one server: the model's registry is threaded through the lines
+    let (o, reg') := Driver.Registry.run reg rest
+    out.putStrLn o
+    loop h out reg'
+  | _ =>
+    out.putStrLn (step line)
+    loop h out reg
 
 def main : IO Unit := do
   let out ← IO.getStdout
-  loop (← IO.getStdin) out
+  loop (← IO.getStdin) out {}
   out.flush
